@@ -370,12 +370,6 @@ impl Drop for ImplServer {
     }
 }
 
-fn has_higher_order(tbl: &Tbl, roots: &[usize]) -> bool {
-    let (ty, _) = tbl.reachable(roots);
-    ty.iter().any(|i| matches!(tbl.kind(*i), "fn" | "process"))
-}
-
-
 /// does the sub-graph reachable from `roots` contain a `Cycle` node?
 fn reach_has_cycle(tbl: &Tbl, roots: &[usize]) -> bool {
     let (ty, _) = tbl.reachable(roots);
@@ -399,11 +393,49 @@ fn declared_ids(value: &str) -> Vec<usize> {
     out
 }
 
-/// Mechanism of a soundness / transitivity failure on recursive types (notes/C09.md R1): a
-/// left-hand `Cycle` met a right-hand stack. Necessary for that mechanism: a `Cycle` is reachable
-/// from the left type, or from the declared type of a function / process value in the witness.
-fn mech_left_cycle(tbl: &Tbl, left: &[usize], witness: &str) -> bool {
-    reach_has_cycle(tbl, left) || declared_ids(witness).iter().any(|d| reach_has_cycle(tbl, &[*d]))
+/// Mechanism of the remaining soundness / transitivity failures on recursive types (notes/C09.md).
+/// The verdict on each of `pairs` (all `true` in the table under test) is recomputed two ways:
+///
+/// * `T`: with the model's `checkRelT` — the code as it is, except that a resolved `Cycle` continues
+///   below the enclosing types of the boundary it points to. The code keeps the stack of the place
+///   where the back-reference stood; the boundary is then "already on the stack" and not pushed again,
+///   so the `Cycle`s inside it are counted from the wrong entry.
+/// * `U`: with the code as it is, on the tree unfolding of the table, where every occurrence of a type
+///   has an id of its own. Coinductive assumptions (and the tuple-id fast path) are keyed by the two
+///   ids alone, so a pair first met below one list of enclosing types is taken for settled when the
+///   same ids are met again below another list, where their `Cycle`s mean other types.
+///
+/// Neither change alters what the roots mean, so a checker that is right gives the same verdicts. A
+/// pair refused under `T` names the first mechanism, a pair refused under `U` (and not `T`) the
+/// second; `None` when both still accept every pair.
+fn mech_recursive(tbl: &Tbl, model: &mut TModel, names: &mut Names, pairs: &[(usize, usize)]) -> Option<&'static str> {
+    let mut roots: Vec<usize> = vec![];
+    for (a, b) in pairs {
+        for x in [*a, *b] {
+            if !roots.contains(&x) {
+                roots.push(x);
+            }
+        }
+    }
+    let refused = |model: &mut TModel, which: &str, x: usize, y: usize| ask(model, &format!("(matrix {which} {x} {y})")).chars().nth(1) == Some('f');
+    let mut t_flips = false;
+    for (a, b) in pairs {
+        t_flips |= refused(model, "compatT", *a, *b);
+    }
+    if t_flips {
+        return Some("compat=resolved-cycle-keeps-inner-stack");
+    }
+    let (ut, img) = tbl.unshare(&roots, 600)?;
+    let image = |x: usize| img[roots.iter().position(|r| *r == x).unwrap()];
+    let mut u_flips = false;
+    if ask(model, &ut.sx(names)).starts_with("ok ") {
+        for (a, b) in pairs {
+            u_flips |= refused(model, "compat", image(*a), image(*b)) || refused(model, "compatT", image(*a), image(*b));
+        }
+    }
+    // back to the table under test
+    ask(model, &tbl.sx(names));
+    if u_flips { Some("compat=assumption-reused-under-other-enclosing-types") } else { None }
 }
 
 fn variants_of(tbl: &Tbl, id: usize) -> Vec<usize> {
@@ -646,14 +678,50 @@ fn diagnose(tbl: &Tbl, model: &mut TModel, a: usize, b: usize, witness: &str, an
 /// `ev.violation` + a counter per signature (so the evidence shows every distinct signature).
 fn report(ev: &mut Ev, sig: &str, what: &str, replay: J, found: bool) {
     if std::env::var("C09_DUMP").is_ok() && !ev.counters.contains_key(&format!("report:{sig}")) {
-        eprintln!("[{sig}] {what}\n    {}", replay["table"].as_str().unwrap_or(""));
+        eprintln!("[{sig}] {what}\n    {} roots {} {}", replay["table"].as_str().unwrap_or(""), replay["roots"], replay["detail"]["witness"]);
     }
     ev.hit(&format!("report:{sig}"));
     ev.violation(sig, what, replay, found);
 }
 
 fn replay_json(tbl: &Tbl, roots: &[usize], extra: J) -> J {
-    let (sub, img) = tbl.subtable(roots);
+    // the declared types of the function / process values of a witness are part of the input: they
+    // are kept in the sub-table, and the witness is re-indexed with it
+    let mut extra = extra;
+    let mut all: Vec<usize> = roots.to_vec();
+    for key in ["witness", "dropped"] {
+        if let Some(w) = extra[key].as_str() {
+            for d in declared_ids(w) {
+                if !all.contains(&d) && d < tbl.types.len() {
+                    all.push(d);
+                }
+            }
+        }
+    }
+    let (sub, img_all) = tbl.subtable(&all);
+    for key in ["witness", "dropped"] {
+        if let Some(w) = extra[key].as_str() {
+            let mut out = w.to_string();
+            for pat in ["(f ", "(p "] {
+                let mut res = String::new();
+                let mut rest = out.as_str();
+                while let Some(i) = rest.find(pat) {
+                    res.push_str(&rest[..i + pat.len()]);
+                    let tail = &rest[i + pat.len()..];
+                    let num: String = tail.chars().take_while(|c| c.is_ascii_digit()).collect();
+                    match num.parse::<usize>().ok().and_then(|n| all.iter().position(|x| *x == n)) {
+                        Some(k) => res.push_str(&img_all[k].to_string()),
+                        None => res.push_str(&num),
+                    }
+                    rest = &tail[num.len()..];
+                }
+                res.push_str(rest);
+                out = res;
+            }
+            extra[key] = json!(out);
+        }
+    }
+    let img: Vec<usize> = img_all[..roots.len()].to_vec();
     let mut names = Names::new();
     let sx = sub.sx(&mut names);
     json!({
@@ -831,8 +899,8 @@ fn run_table(ev: &mut Ev, model: &mut TModel, srv: &mut ImplServer, program: &Pr
                 ev.hit("oracle:compat-unsound");
                 let sig = if fo {
                     format!("compat-unsound:{cls}")
-                } else if mech_left_cycle(&tbl, &[a], &w) {
-                    "compat=left-cycle-resolved-on-right-stack".to_string()
+                } else if let Some(m) = mech_recursive(&tbl, model, &mut names, &[(a, b)]) {
+                    m.to_string()
                 } else {
                     format!("compat-unsound:{cls} (recursive/higher-order)")
                 };
@@ -860,10 +928,6 @@ fn run_table(ev: &mut Ev, model: &mut TModel, srv: &mut ImplServer, program: &Pr
                     // a function / process value (then the failing comparison is between callable
                     // types even if `diagnose`, which uses context-free verdicts, stopped earlier)
                     "overlap=callable-components-by-overlap".to_string()
-                } else if reach_has_cycle(&tbl, &[a]) {
-                    // a left-hand Cycle resolved against the right-hand stack makes a variant look
-                    // disjoint (same mechanism as R1, in overlap mode)
-                    "overlap=left-cycle-resolved-on-right-stack".to_string()
                 } else {
                     format!("overlap-incomplete:{cls} (recursive/higher-order)")
                 };
@@ -895,8 +959,9 @@ fn run_table(ev: &mut Ev, model: &mut TModel, srv: &mut ImplServer, program: &Pr
                     let fo3 = [a, b, cc].iter().all(|i| classes.get(*i) == Some(&'f'));
                     let sig = if fo3 {
                         format!("compat-not-transitive:{}-{}-{}", tbl.kind(a), tbl.kind(b), tbl.kind(cc))
-                    } else if reach_has_cycle(&tbl, &[a, b]) {
-                        "compat-not-transitive=left-cycle-resolved-on-right-stack".to_string()
+                    } else if let Some(m) = mech_recursive(&tbl, model, &mut names, &[(a, b), (b, cc)]) {
+                        // one of the two premises is an unsound `true` of that mechanism
+                        m.to_string()
                     } else {
                         format!("compat-not-transitive:{}-{}-{} (recursive/higher-order)", tbl.kind(a), tbl.kind(b), tbl.kind(cc))
                     };
@@ -1150,6 +1215,9 @@ fn run_corpus(ev: &mut Ev, model: &mut TModel, srv: &mut ImplServer) {
                     &format!("{}: {op}({}, {}) = {i}, expected {want}; {}", j["name"].as_str().unwrap_or(""), tbl.show(a), tbl.show(b), c["why"].as_str().unwrap_or("")),
                     json!({"corpus": f.to_string_lossy(), "table": j["table"], "names": j["names"], "op": op, "a": a, "b": b, "impl": i.to_string(), "witness": c["witness"]}), true);
             }
+            // an entry of an OPEN defect states the right verdict as `expect` and the verdict of the
+            // code as it is as `model_expect` (the model is a model of the code, not of the meaning)
+            let expect = c["model_expect"].as_bool().unwrap_or(expect);
             if m != (if expect { "true" } else { "false" }) {
                 report(ev, &format!("corr=corpus {op}"), &format!("{}: model answers {m} on {op}({a}, {b}), expected {expect}", j["name"].as_str().unwrap_or("")),
                     json!({"broken": "model no longer reproduces the regression corpus", "corpus": f.to_string_lossy()}), false);
